@@ -201,11 +201,14 @@ def fireWith (s : St) (evs : List Ev) : St × FireRec × List Dl × Bool :=
   | some c =>
     let eps1 := s.eps.map Ep.swap
     let ids := eps1.map (·.id)
-    let outs (k : AlgK) (a : Option Alg) : List Nat := match a with
-      | none => []
-      | some a => ids.filter (outSet k eps1 a)
     let evsSr := evs.filter fun e => evAlg e = .sr
     let evsFp := evs.filter fun e => evAlg e = .fp
+    -- outliers that are ejected already are skipped silently by both loops
+    let ejBefore : List Nat := (eps1.filter Ep.ejected).map (·.id)
+    let ejBySr : List Nat := evsSr.filterMap fun e => match e with | .eject _ id => some id | _ => none
+    let outs (k : AlgK) (a : Option Alg) : List Nat := match a with
+      | none => []
+      | some a => ids.filter fun id => outSet k eps1 a id && !ejBefore.contains id && !(k == .fp && ejBySr.contains id)
     let tight := match c.sr with | some a => srTight eps1 a | none => false
     let (s', r, dl) := fire s (mkOrder evsSr (outs .sr c.sr)) (mkOrder evsFp (outs .fp c.fp)) (mkDraws (evsSr ++ evsFp))
     (s', r, dl, tight)
@@ -339,10 +342,7 @@ def monFire (c : Cfg) (pre : PSnap) (f : PFire) : Option String :=
     | some _, _ => acc
     | none, .eject _ id =>
       if decide (c.maxPct * n ≤ acc.1.length * 100) then
-        let cnt := acc.2.1.toNat
-        let why := if decide (c.maxPct * n ≤ cnt * 100) && !pctGE cnt n c.maxPct
-          then s!" [binary64 rounds float64({cnt})/float64({n})*100 below {c.maxPct}]" else ""
-        (acc.1, acc.2.1, some (s!"endpoint {id} ejected while {acc.1.length} of {n} current endpoints are ejected (max_ejection_percent {c.maxPct})" ++ why))
+        (acc.1, acc.2.1, some s!"endpoint {id} ejected while {acc.1.length} of {n} current endpoints are ejected (max_ejection_percent {c.maxPct}, counter {acc.2.1})")
       else (if acc.1.contains id then acc.1 else id :: acc.1, acc.2.1 + 1, none)
     | none, _ => acc) (preEj, pre.n, none)).2.2
   -- M4: un-ejection rule and "nothing else changes"
